@@ -259,7 +259,18 @@ func (m *Exporter) roundTripFrom(w *engine.World, prep bool, when string, servic
 		if p, ok := err.(*engine.Panic); ok {
 			mod, site = p.Module(), engine.PanicSite(p.Stack)
 		}
-		w.Violate("C12", fmt.Sprintf("import-rejected/%s/%s/%s", mod, site, shape(err.Error())),
+		// for the service module, which export it was is part of the key: that its as-is export
+		// is not importable (contexts still running) says nothing about the prepared ones, in
+		// which every context has been paused and its batch closed
+		suffix := ""
+		switch {
+		case mod != "service":
+		case prep:
+			suffix = "/zero-height"
+		case servicePrepared:
+			suffix = "/service-prepared"
+		}
+		w.Violate("C12", fmt.Sprintf("import-rejected/%s/%s/%s%s", mod, site, shape(err.Error()), suffix),
 			"the genesis exported (%s) from the state of height %d is rejected by InitChain of a fresh application: %s (error class; identifiers and numbers elided, because which offending object the module names first can depend on Go map order)", variant, h, shape(err.Error()))
 		if mod == "service" && !prep && !servicePrepared {
 			m.roundTripFrom(w, prep, when, true)
